@@ -21,13 +21,14 @@ Qed.
 
 (* the body of an operation on a handle that is inside a transaction / has SkipDefaultTransaction *)
 Lemma run_body_inner : forall must o s,
+  (forall b, o_kind o <> OCreateInBatches b) ->
   s_started s = false -> (s_pool s <> 0 \/ o_txmode o = TxSkipDefault) ->
   mid must s (run_body o s).
 Proof.
-  intros must o s ST NO.
+  intros must o s NB ST NO.
   assert (N : forall sk d s', s_pool s' = s_pool s -> nested_ok (op_cx o sk d) s').
   { intros sk d s' P. unfold nested_ok. destruct NO as [NP|SD]; [left; rewrite P; exact NP|right]. cbn. rewrite SD. reflexivity. }
-  unfold run_body. destruct (o_kind o).
+  unfold run_body. destruct (o_kind o) eqn:KD; [| | | | | | | exfalso; eapply NB; reflexivity].
   - eapply pipeline_inner; [apply create_bracketed | exact ST | apply N; reflexivity].
   - destruct (sh_cont (o_shape o)); try (eapply pipeline_inner; [apply create_bracketed | exact ST | apply N; reflexivity]).
     unfold run_save_struct. destruct (o_recs o) as [|r rs]; [apply mid_refl|].
@@ -49,7 +50,7 @@ Lemma fallback_ok : forall o s1, op_ok o -> is_query o = false -> keys s1 = rkey
 Proof.
   intros o s1 (U & OK) Q K E. unfold is_query in Q.
   assert (G : goodk (o_shape o) (keys s1) /\ assocs_ok (op_cx o (o_skip o) DSelf) (o_assocs o)).
-  { rewrite K. destruct (o_kind o); try discriminate; exact OK. }
+  { rewrite K. destruct (o_kind o); try discriminate; try contradiction; exact OK. }
   destruct G as [G AO].
   set (cF := op_cx o true DSelf).
   assert (FB : hstep (o_fails o) s1 (run_pipeline cF (o_assocs o) no_q create_pipeline s1)
@@ -108,6 +109,7 @@ Proof.
   - eapply D. apply update_bracketed.
   - eapply D. apply update_bracketed.
   - eapply D. apply delete_bracketed.
+  - exfalso. destruct OK as (_ & OK). rewrite KD in OK. exact OK.
 Qed.
 
 (* every hook and every statement of an operation runs in the transaction that is open at that
@@ -115,6 +117,8 @@ Qed.
 Theorem run_tx_ok : forall o, op_ok o -> tx_ok (must_tx o) 0 0 (s_tr (run o)) = true.
 Proof.
   intros o OK. unfold run.
+  assert (NBK : forall b, o_kind o <> OCreateInBatches b).
+  { intros b E. destruct OK as (_ & OK). rewrite E in OK. exact OK. }
   destruct (init_inv (must_tx o) o) as (I & ST & E & TB & P).
   destruct (o_txmode o) eqn:TM.
   - (* default *)
@@ -129,7 +133,7 @@ Proof.
     + destruct (run_body_default (must_tx o) o TM Q OK) as ((OKK & _) & _). exact OKK.
   - (* the caller's transaction *)
     assert (NZ0 : s_pool (init_state o) <> 0) by (rewrite P; discriminate).
-    pose proof (run_body_inner (must_tx o) o (init_state o) ST (or_introl NZ0)) as [(P2 & _) MI].
+    pose proof (run_body_inner (must_tx o) o (init_state o) NBK ST (or_introl NZ0)) as [(P2 & _) MI].
     destruct (MI I (fun _ => NZ0)) as [OK2 S2].
     unfold finish. rewrite TM.
     assert (NZ : (s_pool (run_body o (init_state o)) =? 0) = false) by (rewrite P2, P; reflexivity).
@@ -137,7 +141,7 @@ Proof.
       rewrite tx_ok_app, OK2, S2; cbn [fst snd andb tx_ok]; rewrite NZ; reflexivity.
   - (* SkipDefaultTransaction *)
     assert (M : must_tx o = false) by (unfold must_tx; rewrite TM; apply andb_false_r). rewrite M in *.
-    pose proof (run_body_inner false o (init_state o) ST (or_intror TM)) as [_ MI].
+    pose proof (run_body_inner false o (init_state o) NBK ST (or_intror TM)) as [_ MI].
     destruct (MI I ltac:(discriminate)) as [OK2 _].
     unfold finish. rewrite TM. exact OK2.
 Qed.
